@@ -209,6 +209,56 @@ fn make_variant_as_twin(n: &Module) -> Option<Module> {
     Some(a)
 }
 
+/// (enum index, variant index) of a newtype variant whose payload can be wrapped in `Option`
+fn pick_newtype_variant(m: &Module) -> Option<(usize, usize)> {
+    for (ei, td) in m.types.iter().enumerate().rev() {
+        if td.attrs.type_override.is_some() || td.attrs.as_type.is_some() {
+            continue;
+        }
+        if let Body::Enum(vs) = &td.body {
+            for (vi, v) in vs.iter().enumerate().rev() {
+                if let typegen::VBody::Newtype(f) = &v.body {
+                    let plain = !f.skip && !f.inline && !f.as_same && f.as_type.is_none() && f.type_override.is_none() && f.optional.is_none();
+                    if plain && !v.skip && v.as_type.is_none() && !matches!(f.ty, TyExpr::SelfRef(_) | TyExpr::Option(_)) {
+                        return Some((ei, vi));
+                    }
+                }
+            }
+        }
+    }
+    None
+}
+
+/// `#[ts(as = "Option<T>")] V(T)` against `V(Option<T>)`: "`as` on a variant yields exactly the
+/// binding the item would have if its Rust type were U" - with a U whose name is a union
+fn make_variant_option_twins(n: &Module) -> Option<(Module, Module)> {
+    let (ei, vi) = pick_newtype_variant(n)?;
+    let (mut a, mut b) = (n.clone(), n.clone());
+    if let (Body::Enum(va), Body::Enum(vb)) = (&mut a.types[ei].body, &mut b.types[ei].body) {
+        if let (typegen::VBody::Newtype(fa), typegen::VBody::Newtype(fb)) = (&va[vi].body.clone(), &mut vb[vi].body) {
+            let opt = TyExpr::Option(Box::new(fa.ty.clone()));
+            va[vi].as_type = Some(opt.clone());
+            fb.ty = opt;
+            return Some((a, b));
+        }
+    }
+    None
+}
+
+/// the enum both twins were derived from (the variant whose `as` / type differs)
+fn pick_newtype_variant_of_base(a: &Module, b: &Module) -> Option<(usize, usize)> {
+    for (ei, (ta, tb)) in a.types.iter().zip(b.types.iter()).enumerate() {
+        if let (Body::Enum(va), Body::Enum(vb)) = (&ta.body, &tb.body) {
+            for (vi, (x, y)) in va.iter().zip(vb.iter()).enumerate() {
+                if x.as_type.is_some() && y.as_type.is_none() {
+                    return Some((ei, vi));
+                }
+            }
+        }
+    }
+    None
+}
+
 /// the plain container that gets `#[ts(as = "U")]` (`as` excludes rename_all / tag / optional_fields)
 fn pick_container(m: &Module) -> Option<usize> {
     for (i, td) in m.types.iter().enumerate().rev() {
@@ -339,6 +389,10 @@ pub fn twins(base: &Module) -> Vec<(&'static str, Module)> {
     }
     if let Some(a) = make_container_as_twin(base) {
         extra.push(("container-as", a));
+    }
+    if let Some((a, b)) = make_variant_option_twins(base) {
+        extra.push(("zvariant-as-option", a));
+        extra.push(("yvariant-option", b));
     }
     let Some((ti, fi)) = pick_field(base) else {
         if extra.is_empty() {
@@ -529,6 +583,25 @@ pub fn c14(ctx: &Ctx) -> ! {
                     } else {
                         out.bump("equivalences_without_distinguishing_witness", 1);
                         if distinct.insert(fnv(&format!("{kind}{bname}{}", render::render_module(&ap.module)))) {
+                            out.distinct_nontrivial += 1;
+                        }
+                    }
+                }
+            }
+            // (h) `as = "Option<T>"` on a newtype variant == the variant holding an Option<T>
+            if let (Some((ai, ad)), Some((bi, bd))) = (get("zvariant-as-option"), get("yvariant-option")) {
+                let (ap, bp) = (&corpus.modules[*ai], &corpus.modules[*bi]);
+                if let Some((ei, _)) = pick_newtype_variant(&bp.module).or(pick_newtype_variant(&ap.module)).and(pick_newtype_variant_of_base(&ap.module, &bp.module)) {
+                    let decl_text = |pl: &Value, m: &Module| -> Option<String> {
+                        let t = m.insts.iter().find(|t| matches!(t, TyExpr::User(i, _) if *i == ei))?;
+                        pl[render::render_ty(t, m)].as_str().map(|s| s.to_string())
+                    };
+                    if let (Some(x), Some(y)) = (decl_text(ad, &ap.module), decl_text(bd, &bp.module)) {
+                        out.evaluations += 1;
+                        out.bump("pairs_variant_as_option_vs_variant_option", 1);
+                        if x != y {
+                            out.take_failures(&[json!({"signature": "variant-as-changes-binding", "message": format!("`#[ts(as = \"Option<T>\")] V(T)` must give the binding of `V(Option<T>)`.\nwith as:   {x}\nreal type: {y}"), "case": case_of(ap, json!({"real_type_source": render::render_module(&bp.module)}))})], &known);
+                        } else if distinct.insert(fnv(&format!("vopt{bname}{}", render::render_module(&ap.module)))) {
                             out.distinct_nontrivial += 1;
                         }
                     }
